@@ -77,6 +77,7 @@ func sgInitTables() bool {
 		{reflect.TypeFor[SGSliceA](), "slice"}, {reflect.TypeFor[SGSliceB](), "slice"}, {reflect.TypeFor[SGSliceC](), "slice"},
 		{reflect.TypeFor[SGSliceD](), "slice"}, {reflect.TypeFor[SGSliceU](), "slice"},
 		{reflect.TypeFor[SGArrReg](), "none"}, {reflect.TypeFor[SGMapReg](), "none"}, {reflect.TypeFor[SGRecReg](), "none"},
+		{reflect.TypeFor[SGLongNL](), "long"},
 	} {
 		sgAddCustom(e.typ, e.kind)
 	}
@@ -509,7 +510,34 @@ func execSgen(op string, a []sx) sx {
 		}
 		applyRegs(a[3])
 		t := sgCaseType(a[0], a[1])
-		return sgSchemaAndCodec(t)
+		// determinism probes: the schema of every registered type in a plain position, taken before
+		// and after the case's own generation, and the case's schema generated twice
+		probe := func() string {
+			var b strings.Builder
+			for _, e := range a[3].args() {
+				if e.tag() != "rs" {
+					continue
+				}
+				pt := reflect.StructOf([]reflect.StructField{{Name: "V", Type: sgCustoms[int(e.args()[0].int())].typ}})
+				ps, err := avro.SchemaForType(reflect.New(pt).Interface())
+				if err != nil {
+					b.WriteString("(err)")
+				} else {
+					b.WriteString(schemaSx(ps).String())
+				}
+			}
+			return b.String()
+		}
+		before := probe()
+		res := sgSchemaAndCodec(t)
+		again := sgSchemaAndCodec(t)
+		if after := probe(); after != before {
+			return T("nondet", hs("a registered type's schema changed: "+before+" then "+after))
+		}
+		if again.String() != res.String() {
+			return T("nondet", hs("the same type gave "+res.String()+" then "+again.String()))
+		}
+		return res
 	}
 	if op == "c20-known" {
 		a = a[1:]
@@ -632,6 +660,7 @@ func c15Regs(ids []int) sx {
 	add(reflect.TypeFor[SGStructA](), sPrim("string"), "string")
 	add(reflect.TypeFor[SGLongA](), sgUnionNullFirst(sPrim("long")), "long")
 	add(reflect.TypeFor[SGStrA](), sgUnionNullFirst(sPrim("string")), "string")
+	add(reflect.TypeFor[SGLongNL](), sUnion(sPrim("long"), sPrim("null")), "long")
 	add(reflect.TypeFor[SGSliceA](), sPrim("bytes"), "bytes")
 	add(reflect.TypeFor[SGArrReg](), sArray(sPrim("long")), "array")
 	add(reflect.TypeFor[SGMapReg](), sMap(sPrim("string")), "map")
@@ -726,7 +755,7 @@ var (
 	sgRegLeaves = []reflect.Type{
 		reflect.TypeFor[SGStructA](), reflect.TypeFor[SGLongA](), reflect.TypeFor[SGStrA](), reflect.TypeFor[SGSliceA](),
 		reflect.TypeFor[SGArrReg](), reflect.TypeFor[SGMapReg](), reflect.TypeFor[SGRecReg](),
-		reflect.TypeFor[SGStructU](), reflect.TypeFor[SGLongU](), reflect.TypeFor[SGSliceU](),
+		reflect.TypeFor[SGStructU](), reflect.TypeFor[SGLongU](), reflect.TypeFor[SGSliceU](), reflect.TypeFor[SGLongNL](),
 	}
 	sgJSONNames = []string{"", "", "", "a", "b", "x", "F1", "-", "omitempty"}
 	sgJSONOpts  = []string{"", "", ",omitempty", ",omitempty", ",omitempty,string", ",string", ",", ",omitemptyX", ",string,omitempty"}
